@@ -21,13 +21,15 @@ EXTENDS ComposedApp, TLCExt
 Traces == JsonDeserialize(IOEnv.TRACE_FILE)
 
 VARIABLES tid, l, bad
-tvars == <<plan, named, w, wtyped, submitted, pending, running, finished, result, order, cons, written, tid, l, bad>>
+tvars == <<plan, named, rev, w, wtyped, submitted, pending, running, finished, result, order, cons, written, arg, argseen, tid, l, bad>>
 
 Ev == Traces[tid].events[l]
 
 Fresh(k) ==
     /\ plan' = Traces[k].plan
     /\ named' = Traces[k].named
+    /\ rev' = Traces[k].rev
+    /\ arg' = Arg0 /\ argseen' = [i \in Inputs |-> NoArg]
     /\ w' = Traces[k].w
     /\ wtyped' = Traces[k].wtyped
     /\ submitted' = FALSE
@@ -39,6 +41,7 @@ Fresh(k) ==
 
 TraceInit ==
     /\ tid = 1 /\ l = 1 /\ bad = {}
+    /\ rev = Traces[1].rev /\ arg = Arg0 /\ argseen = [i \in Inputs |-> NoArg]
     /\ plan = Traces[1].plan /\ named = Traces[1].named /\ w = Traces[1].w /\ wtyped = Traces[1].wtyped
     /\ submitted = FALSE /\ pending = <<>> /\ running = {} /\ finished = {}
     /\ result = [i \in Inputs |-> None]
